@@ -114,6 +114,12 @@ M_C14(cfg, meta, pre, r, post, g) ==
   /\ (meta.kind = "thread" /\ r.ev = "fin") =>
         /\ P_C04(cfg, pre, EngEvent(meta, r), post, g)
         /\ P_C05(cfg, pre, EngEvent(meta, r), post, g)
+  \* global scope / async: ONE cache whoever calls - which entry a store displaces depends on the shared
+  \* history (stores and uses by all threads), never on which thread made the calls
+  /\ (meta.kind # "thread" /\ r.ev = "fin") =>
+        /\ P_C04(cfg, pre, EngEvent(meta, r), post, g)
+        /\ P_C07(cfg, pre, EngEvent(meta, r), post, g)
+        /\ P_C08(cfg, pre, EngEvent(meta, r), post, g)
 
 \* C15 (per lookup): exactly one counter moves, and it is the hit counter iff an unexpired entry
 \* was found
@@ -132,7 +138,8 @@ M_C20(cfg, meta, pre, r, post, g) ==
         ELSE post = pre
   \* ... and does not corrupt the cache: every stored key is still known to the queue (it can still be
   \* evicted), if that was so before
-  /\ (r.ev = "fin" /\ "task" \in DOMAIN r /\ r.task # "" /\ ~r.panic /\ Dom(pre) \subseteq SeqRange(pre.order)) =>
+  /\ (r.ev = "fin" /\ "task" \in DOMAIN r /\ r.task # "" /\ ~r.panic /\ (cfg.limit # 0 \/ cfg.maxmem # 0)
+        /\ Dom(pre) \subseteq SeqRange(pre.order)) =>
         Dom(post) \subseteq SeqRange(post.order)
   \* up to its first await the call has only performed its lookup: nothing is stored, nothing but an
   \* expired entry for its own key is removed (so a later drop leaves no trace of the call)
@@ -294,7 +301,10 @@ GhostOf(c) ==
    age |-> [k \in Dom(c) |-> c.store[k].age]]
 
 \* every stored key is known to the eviction queue (queue orphans are tolerated), bounds hold
-QuiescentOK(cfg, c) == Dom(c) \subseteq SeqRange(c.order) /\ WithinLimits(cfg, c)
+\* "every entry it holds can still be evicted": only a bounded cache ever evicts, an unbounded one need
+\* not keep a queue at all
+HasBound(cfg) == cfg.limit # 0 \/ cfg.maxmem # 0
+QuiescentOK(cfg, c) == (HasBound(cfg) => Dom(c) \subseteq SeqRange(c.order)) /\ WithinLimits(cfg, c)
 
 QuiesceFails(r, cfgs, metas) ==
   LET ops == r.ops
